@@ -182,8 +182,24 @@ def _run_lines(cmd, lines, env=None):
     e = dict(os.environ)
     if env:
         e.update(env)
-    p = subprocess.run(cmd, shell=True, input=("\n".join(lines) + "\n").encode(), stdout=subprocess.PIPE,
-                       stderr=subprocess.PIPE, env=e)
+    # an evaluation that does not come back within the hour is a crash of the model on these cases
+    import signal
+    proc = subprocess.Popen(cmd, shell=True, stdin=subprocess.PIPE, stdout=subprocess.PIPE, stderr=subprocess.PIPE, env=e,
+                            start_new_session=True)
+    try:
+        so, se = proc.communicate(("\n".join(lines) + "\n").encode(), timeout=3600)
+    except subprocess.TimeoutExpired:
+        try:
+            os.killpg(proc.pid, signal.SIGKILL)
+        except Exception:
+            pass
+        proc.communicate()
+        return -9, [], "timeout"
+
+    class _P:
+        pass
+    p = _P()
+    p.returncode, p.stdout, p.stderr = proc.returncode, so, se
     out = p.stdout.decode("utf-8", "replace").split("\n")
     if out and out[-1] == "":
         out.pop()
